@@ -921,20 +921,18 @@ func parseNumberLiteral(literal string) (value interface{}, err error) {
 	err = parseIntErr
 
 	if err.(*strconv.NumError).Err == strconv.ErrRange {
-		if len(literal) > 2 &&
-			literal[0] == '0' && (literal[1] == 'X' || literal[1] == 'x') &&
-			literal[len(literal)-1] != 'n' {
-			// Could just be a very large number (e.g. 0x8000000000000000)
-			var value float64
-			literal = literal[2:]
-			for _, chr := range literal {
-				digit := digitValue(chr)
-				if digit >= 16 {
+		if len(literal) > 2 && literal[0] == '0' && literal[len(literal)-1] != 'n' {
+			switch literal[1] {
+			case 'x', 'X', 'o', 'O', 'b', 'B':
+				// A hex, octal or binary literal that does not fit into 64 bits (e.g. 0x8000000000000000):
+				// its value is the exact integer rounded to the nearest Number.
+				bigInt, ok := new(big.Int).SetString(literal, 0)
+				if !ok {
 					goto error
 				}
-				value = value*16 + float64(digit)
+				value, _ := new(big.Float).SetInt(bigInt).Float64()
+				return value, nil
 			}
-			return value, nil
 		}
 	}
 
